@@ -27,8 +27,10 @@ Inductive case :=
        what duke::write_class produced for that method (code array and the tables) *)
 | CPool (entries : list pentry) (count : N)
     (* the constant pool of a written class, in file order, and its constant_pool_count *)
-| CLdc (is2 : bool) (index : N) (form : N).
+| CLdc (is2 : bool) (index : N) (form : N)
     (* an ldc instruction in the written code: loadable is long/double, pool index, opcode *)
+| CFrames (fs : list (option N)) (written : N).
+    (* which instructions of a method carry a frame in the tree; number of stack_map_frame entries written *)
 
 Definition zeqN (z : Z) (n : N) : bool := z =? Z.of_N n.
 Definition exc_eqb (a : Z * Z * Z) (b : N * N * N) : bool :=
@@ -83,4 +85,5 @@ Definition check (c : case) : bool :=
       | LDC_W _ => (form =? 19)%N
       | LDC2_W _ => (form =? 20)%N
       end
+  | CFrames fs n => (N.of_nat (length (written_frames fs (map (fun _ => 0%Z) fs))) =? n)%N
   end.
